@@ -67,8 +67,12 @@ def build(rng, geom, dtype, variant=None):
         for i in range(4):
             ts.append(T_(["x%d" % i, "x%d" % ((i + 3) % 4), "p%d" % i], [b[i], b[(i + 3) % 4], rng.choice([1, 2])], "T%d" % i))
     elif geom == "multibond":
-        ts.append(T_(["x0", "y0", "p0"], [2, 2, 2], "T0"))
-        ts.append(T_(["x0", "y0", "x1", "p1"], [2, 2, 2, 2], "T1"))
+        i0 = ["x0", "y0", "p0"]
+        i1 = ["x0", "y0", "x1", "p1"]
+        rng.shuffle(i0)     # (which label of the double bond comes first on each tensor decides the fuse order)
+        rng.shuffle(i1)
+        ts.append(T_(i0, [2, 2, 2], "T0"))
+        ts.append(T_(i1, [2, 2, 2, 2], "T1"))
         ts.append(T_(["x1", "p2"], [2, 2], "T2"))
     elif geom == "ones":
         ts.append(T_(["x0", "u", "p0"], [2, 1, 2], "T0"))
@@ -136,7 +140,7 @@ def build(rng, geom, dtype, variant=None):
     elif geom == "repeated":
         # a tensor that carries the same label twice (a 'diagonal' use of the label), joined to neighbours through it;
         # or the situation diagonal_reduce produces itself: a neighbour joined to a diagonal tensor by both its labels
-        if rng.random() < 0.5:
+        if int(variant or 0) % 2 == 0:
             b = rng.choice([2, 3])
             ts.append(T_(["p0", "x0", "x0"], [2, b, b], "T0"))
             ts.append(T_(["x0", "p1"], [b, 2], "T1"))
@@ -199,14 +203,20 @@ class Case:
         self.imprecise = 0
         # simple-update style gauges: vectors living on bonds; the network then denotes tensors + gauges
         self.gauges = None
-        if geom in ("chain", "multibond", "ones", "star") and rng.random() < 0.4:
+        var_ = tid // len(GEOMS)
+        if geom in ("chain", "multibond", "ones", "star") and (rng.random() < 0.4 if geom != "multibond" else var_ % 4 != 0):
             self.gauges = {}
             inner = list(self.tn.inner_inds())
             partial = rng.random() < 0.5     # a bond without an entry carries the identity gauge
             keep = [ix for ix in inner if not partial or rng.random() < 0.5] or [rng.choice(inner)]
+            if geom == "multibond":
+                # the double bond (x0, y0): fully gauged, only the first, only the second label gauged - systematically
+                keep = {1: ["x0", "y0"], 2: ["x0"], 3: ["y0"]}[var_ % 4] + (["x1"] if rng.random() < 0.5 else [])
             for ix in keep:
                 d = self.tn.ind_size(ix)
                 self.gauges[ix] = np.asarray([float(rng.choice([1, 2, 3])) for _ in range(d)]).astype("float64")
+                if geom == "multibond" and d >= 2 and len(set(self.gauges[ix].tolist())) == 1:
+                    self.gauges[ix][0] = float(self.gauges[ix][0] % 3 + 1)      # (a uniform gauge hides any permutation)
             # the trace's reference network includes the gauges as one-label tensors on their bonds
             for ix, g in self.gauges.items():
                 net.append({"inds": [ix], "shape": [int(g.size)], "data": snap_garray(g)})
@@ -257,7 +267,7 @@ class Case:
             # "up to floating point": the tolerance follows the magnitude (ill-conditioned random gauges amplify the
             # rounding of single precision to ~1e-4 relative); a value the dtype cannot resolve to one unit is not snapped
             illc = getattr(self, "illcond", False) or name.startswith(("gauge_all_random", "insert_gauge", "gauge_all"))
-            atol = max(self.tol * (50 if single else 1000), mag * ((1e-3 if illc else 2e-5) if single else 1e-9))
+            atol = max(self.tol * (50 if single else 1000), mag * ((1e-3 if illc else 1e-4) if single else 1e-9))
             if atol > 0.25:
                 self.imprecise += 1
                 self.tn = tn
@@ -395,6 +405,8 @@ class Case:
         elif self.gauges is not None:
             # a gauged network: only the operations that take (and maintain) the gauges
             menu = ["g_fuse_squeeze", "g_make_single", "g_fuse_multibonds", "g_insert", "g_fuse_squeeze", "g_squeeze_keep"]
+            if self.geom == "multibond" and not any(rr_.get("ev") == "rewrite" for rr_ in self.recs):
+                menu = ["g_fuse_multibonds", "g_make_single", "g_fuse_squeeze"]
         elif not hyper_now and r.random() < 0.06:
             menu = ["g_all_simple"]
         if self.geom == "hyperout" and not any(rr_.get("ev") == "rewrite" for rr_ in self.recs):
@@ -403,9 +415,10 @@ class Case:
             menu = ["diagonal_reduce"]
         if any(len(set(t.inds)) != t.ndim for t in tn.tensors):
             # a label repeated on one tensor: the simplification passes (which collapse it) are the documented consumers
-            menu = ["rank_simplify", "rank_simplify", "full_simplify_R", "diagonal_reduce", "column_reduce", "antidiag_gauge", "equalize_norms"]
+            menu = ["rank_simplify", "rank_simplify", "rank_simplify", "rank_simplify", "full_simplify_R", "diagonal_reduce", "column_reduce",
+                    "antidiag_gauge", "equalize_norms"]
         elif self.geom == "repeated" and not any(rr_.get("ev") == "rewrite" for rr_ in self.recs):
-            menu = ["diagonal_reduce", "diagonal_reduce", "full_simplify_R", "rank_simplify"]
+            menu = ["diagonal_reduce", "diagonal_reduce", "diagonal_reduce", "full_simplify_R", "rank_simplify"]
         op = r.choice(menu)
         if (tn.num_tensors < 2 or not any(len(tids) == 2 for tids in tn.ind_map.values())) and \
                 op.startswith(("gauge", "canonize", "balance", "compress", "g_")):
